@@ -92,8 +92,8 @@ func Build(plans []ListPlan, dir string, forceString bool) (*Built, error) {
 // Clone builds a NEW storage with new list objects (and new descriptors) over
 // the same bytes: file-backed lists reopen the files of b.  This is the
 // "fresh engine" configuration: same plan, no history.
-func (b *Built) Clone() (*Built, error) {
-	c := &Built{plans: b.plans, clone: true}
+func (b *Built) Clone(withFaulty bool) (*Built, error) {
+	c := &Built{plans: b.plans, clone: true, paths: b.paths}
 	fi := 0
 	for i, p := range b.plans {
 		var l filterlist.RuleList
@@ -117,9 +117,14 @@ func (b *Built) Clone() (*Built, error) {
 		} else {
 			l = &filterlist.StringRuleList{ID: p.ID, RulesText: p.Text, IgnoreCosmetic: p.IgnoreCosmetic}
 		}
+		var fy *FaultyRuleList
+		if p.Faulty && withFaulty {
+			fy = &FaultyRuleList{Inner: l}
+			l = fy
+		}
 		c.Lists = append(c.Lists, l)
 		c.Files = append(c.Files, fl)
-		c.Faulty = append(c.Faulty, nil)
+		c.Faulty = append(c.Faulty, fy)
 	}
 	s, err := filterlist.NewRuleStorage(c.Lists)
 	if err != nil {
@@ -140,8 +145,10 @@ func (b *Built) Cleanup() {
 	for _, f := range b.extra {
 		_ = f.Close()
 	}
-	for _, p := range b.paths {
-		_ = os.Remove(p)
+	if !b.clone {
+		for _, p := range b.paths {
+			_ = os.Remove(p)
+		}
 	}
 }
 
@@ -169,6 +176,20 @@ func (b *Built) Applicable(k, i int) bool {
 	default:
 		return b.Faulty[i] != nil
 	}
+}
+
+// CanInject reports whether fault k can be applied to list i right now: the
+// handle-swapping kinds assign the File field under the list's own mutex, as
+// an application would, so they have to wait while a parked reader holds it.
+func (b *Built) CanInject(k, i int) bool {
+	if k == FSwapClosed || k == FSwapDir {
+		l := b.Files[i]
+		if !l.TryLock() {
+			return false
+		}
+		l.Unlock()
+	}
+	return true
 }
 
 // Inject applies fault k to list i (ignored for FStorageClose).  dir is a
